@@ -184,7 +184,25 @@ func checkC15(args []string) {
 	for i, c := range cases {
 		icc, exif, xmp := metaBlob(rng, c.icc), metaBlob(rng, c.exif), metaBlob(rng, c.xmp)
 		im := imgs[c.kind]
-		out, err := c15Encode(c, im[0], im[1], icc, exif, xmp)
+		// every other case hands the blobs over as consecutive windows of ONE caller buffer (each window's capacity
+		// reaches into the next blob, as slicing gives it): what is stored must be the blob, and the buffer stays as it was
+		pi, pe, px := icc, exif, xmp
+		var shared, sharedBefore []byte
+		if i%2 == 1 {
+			shared = append(append(append(append([]byte{}, icc...), exif...), xmp...), 0xEE, 0xEF, 0xF0, 0xF1)
+			sharedBefore = append([]byte(nil), shared...)
+			window := func(b []byte, off int) []byte {
+				if b == nil {
+					return nil
+				}
+				return shared[off : off+len(b)]
+			}
+			pi, pe, px = window(icc, 0), window(exif, len(icc)), window(xmp, len(icc)+len(exif))
+		}
+		out, err := c15Encode(c, im[0], im[1], pi, pe, px)
+		if shared != nil && !bytes.Equal(shared, sharedBefore) {
+			run.Violate("caller-buffer-modified|"+c.kind, fmt.Sprintf("%v: the caller's buffer holding the three blobs was modified by the encode", c), c.String())
+		}
 		if err != nil {
 			run.Violate("encode-error|"+c.kind, fmt.Sprintf("%v: encode with metadata failed: %v", c, err), c.String())
 			continue
@@ -276,6 +294,58 @@ func checkC15(args []string) {
 		c := info[id]
 		key := "container|" + c.kind + "|" + why
 		run.Violate(key, fmt.Sprintf("%v: %s", c, why), c.String())
+	}
+	// blobs at the 100 MB cap (too large for TLC to read: plain comparisons). Whatever blob Encode / the animation
+	// encoder accepts must come back byte for byte through GetChunk, and the file must still decode to the pixels of
+	// the metadata-free file.
+	{
+		const capBytes = 100 * 1024 * 1024
+		type capCase struct {
+			kind  string
+			which int // 0 ICC, 1 EXIF, 2 XMP
+			size  int
+		}
+		capCases := []capCase{{"lossy", 0, capBytes}}
+		if run.Thorough() {
+			capCases = append(capCases, capCase{"lossless+alpha", 1, capBytes - 1}, capCase{"anim2", 2, capBytes}, capCase{"lossy+alpha", 0, capBytes - 7}, capCase{"anim2", 0, capBytes - 8})
+		}
+		big := make([]byte, capBytes)
+		rng.Read(big[:1<<20])
+		for i := 1 << 20; i < len(big); i += 1 << 20 {
+			copy(big[i:], big[:1<<20])
+			big[i] = byte(i >> 20)
+		}
+		for _, cc := range capCases {
+			blob := big[:cc.size]
+			var bl [3][]byte
+			bl[cc.which] = blob
+			c := c15Case{kind: cc.kind}
+			name := fmt.Sprintf("%s with a %d-byte %s blob (the cap is %d)", cc.kind, cc.size, []string{"ICC", "EXIF", "XMP"}[cc.which], capBytes)
+			im := imgs[cc.kind]
+			out, err := c15Encode(c, im[0], im[1], bl[0], bl[1], bl[2])
+			run.Eval("cap:" + name)
+			if err != nil {
+				run.Note("%s: the encoder refuses the blob (an error, not a violation): %v", name, err)
+				continue
+			}
+			d, derr := mux.NewDemuxer(out)
+			if derr != nil {
+				run.Violate("cap|demuxer rejects", fmt.Sprintf("%s: mux.NewDemuxer fails on the written file: %v", name, derr), name)
+				continue
+			}
+			got, gerr := d.GetChunk([]mux.ChunkID{mux.FourCCICCP, mux.FourCCEXIF, mux.FourCCXMP}[cc.which])
+			if gerr != nil || !bytes.Equal(got, blob) {
+				run.Violate("cap|blob not byte-exact", fmt.Sprintf("%s: GetChunk returns %d bytes, err=%v", name, len(got), gerr), name)
+			}
+			pa, err1 := playbackDigests(out)
+			pb, err2 := playbackDigests(base[cc.kind])
+			if err1 != nil || err2 != nil || pa != pb {
+				run.Violate("cap|picture changed or undecodable", fmt.Sprintf("%s: the file with the blob plays as %q (err=%v), the metadata-free file as %q (err=%v)", name, pa, err1, pb, err2), name)
+			}
+			if _, ferr := webp.GetFeatures(bytes.NewReader(out)); ferr != nil {
+				run.Violate("cap|GetFeatures fails", fmt.Sprintf("%s: %v", name, ferr), name)
+			}
+		}
 	}
 	run.Finish()
 }
